@@ -5,6 +5,7 @@ pub mod bdd;
 pub mod cli;
 pub mod compile;
 pub mod counts;
+pub mod features;
 pub mod history;
 pub mod nogood;
 pub mod parser;
@@ -24,6 +25,7 @@ pub fn spec(id: &str, tier: Tier) -> Option<PropSpec> {
         "C09" => compile::c09(tier),
         "C10" => compile::c10(tier),
         "C11" => history::c11(tier),
+        "C12" => features::c12(tier),
         "C13" => counts::c13(tier),
         "C14" => history::c14(tier),
         "C15" => cli::c15(tier),
